@@ -156,8 +156,9 @@ func Explain(program *analysis.ProgramInfo, store factstore.ReadOnlyFactStore, g
 		store:   store,
 		opts:    opts,
 		cache:   make(map[uint64][]*ProofNode),
-		onStack: make(map[uint64]bool),
+		onStack: make(map[uint64]int),
 		ruleIDs: make(map[int]string),
+		minCut:  noCut,
 	}
 	proofs := e.explain(goal, 0)
 	if len(proofs) == 0 {
@@ -173,8 +174,13 @@ type explainer struct {
 	// cache memoizes proofs per ground goal hash. Avoids recomputing proofs
 	// of facts that appear as premises in multiple parent proofs.
 	cache map[uint64][]*ProofNode
-	// onStack tracks goals currently being proved to break cycles.
-	onStack map[uint64]bool
+	// onStack tracks goals currently being proved to break cycles; the value
+	// is the goal's position on the stack.
+	onStack map[uint64]int
+	// minCut is the lowest stack position of a goal at which the search
+	// below the current goal was cut because that goal is being proved
+	// (noCut if there was no cut).
+	minCut int
 	// ruleIDs memoizes content-addressed rule IDs keyed by index in program.Rules.
 	ruleIDs map[int]string
 }
@@ -187,11 +193,17 @@ func (e *explainer) explain(goal ast.Atom, depth int) []*ProofNode {
 	if cached, ok := e.cache[h]; ok {
 		return cached
 	}
-	if e.onStack[h] {
+	if pos, ok := e.onStack[h]; ok {
+		if pos < e.minCut {
+			e.minCut = pos
+		}
 		return nil
 	}
-	e.onStack[h] = true
+	myPos := len(e.onStack)
+	e.onStack[h] = myPos
 	defer delete(e.onStack, h)
+	outerCut := e.minCut
+	e.minCut = noCut
 
 	var proofs []*ProofNode
 
@@ -232,9 +244,19 @@ func (e *explainer) explain(goal ast.Atom, depth int) []*ProofNode {
 		}
 	}
 
-	e.cache[h] = proofs
+	// A result that was computed while a proper ancestor was cut out of the
+	// search is only valid below that ancestor; do not reuse it elsewhere.
+	if e.minCut >= myPos {
+		e.cache[h] = proofs
+	}
+	if outerCut < e.minCut {
+		e.minCut = outerCut
+	}
 	return proofs
 }
+
+// noCut is the value of minCut when no cycle cut happened.
+const noCut = int(^uint(0) >> 1)
 
 // bodySolution carries a successful body unifier plus the ground premise
 // atoms and their sub-proofs.
